@@ -1,4 +1,4 @@
-import FrappyModel.Klass.Config
+import FrappyModel.Klass.ConfigAttach
 /-
 C10 — Configuration is applied faithfully; erroneous configuration is rejected whole.
 
@@ -386,18 +386,98 @@ def acceptedB (ops : Ops DT Val) (c : ClassDesc DT Val) (cfg : Cfg Val) (o : Obs
 /-- never half applied: a module is registered xor reported -/
 def wholeB (o : ObsModule DT Val) : Bool := o.registered != !o.errors.isEmpty
 
+/-! ## module properties naming another module (`Attached`): applied / rejected with the whole node at hand
+
+"each configured module property … is applied to that instance": for a property declared `Attached(basecls)` the value is
+the NAME of another module of the node and applying it means that the attribute of the instance IS that module.  A name
+no module of the node has, or the name of a module which is not a `basecls` ("a value of the wrong type"), can not be
+applied: the configuration is erroneous, whether the property is mandatory or optional and whether or not the module's
+own code uses the attribute while it is initialised.  Such an error can only be seen once all modules are constructed,
+so the module OBJECT exists; what the statement demands is observable as: the node refuses to start and the module is
+among the failing modules reported together.  The empty string stands for "not attached" (docstring of `Attached`). -/
+
+/-- the module name the configuration gives for an attached-module property: the configured (else class level) value
+converted to the property's datatype, read as a module name (`none`: no value, or "not attached") -/
+def attGiven (nameOf : Val → Option Name) (m : ModDecl DT Val) (d : AttDecl) : Option Name :=
+  match m.cls.modProps.find? (fun pd => pd.name == d.prop) with
+  | none => none
+  | some pd =>
+    match propGiven pd m.cfg with
+    | some v => (pd.validate v).bind nameOf
+    | none => pd.classValue.bind nameOf
+
+/-- `t` is the name of a module of the node which is of the kind the property asks for -/
+def targetOk (mods : List (ModDecl DT Val)) (d : AttDecl) (t : Name) : Bool :=
+  mods.any fun x => x.name == t && x.kinds.contains d.base
+
+/-- erroneous configuration of module `m` of the node `mods`: an attached-module property names a module which the node
+does not have, or one of the wrong kind -/
+inductive BadAttachment (nameOf : Val → Option Name) (mods : List (ModDecl DT Val)) (m : ModDecl DT Val) : Prop
+  | mk (d : AttDecl) (t : Name) : d ∈ m.attached → attGiven nameOf m d = some t → targetOk mods d t = false →
+      BadAttachment nameOf mods m
+
+/-- applied: every attachment the configuration gives names a module of the node of the right kind, and the attribute
+of the instance is that module -/
+def AttachedApplied (nameOf : Val → Option Name) (mods : List (ModDecl DT Val))
+    (attachedOf : Name → Name → Option Name) : Prop :=
+  ∀ m ∈ mods, ∀ d ∈ m.attached, ∀ t, attGiven nameOf m d = some t →
+    targetOk mods d t = true ∧ attachedOf m.name d.prop = some t
+
 /-! ## clause 4: all failing modules reported together -/
 
 structure ObsNode where
   configured : List Name
   registered : List Name
-  reported : List Name          -- modules named in the error list
+  reported : List Name          -- modules named in the error list as not created
   starts : Bool                 -- `_processCfg` would not exit
+  initReported : List Name := []     -- modules named in the error list as created but not initialised
+  attached : List (Name × Name × Option Name) := []   -- (module, property, what the attribute of the instance is)
 
 def nodeB (n : ObsNode) : Bool :=
   n.configured.all (fun m => n.registered.contains m != n.reported.contains m) &&
   n.registered.all (fun m => n.configured.contains m) &&
-  (n.starts == n.reported.isEmpty)
+  n.initReported.all (fun m => n.configured.contains m) &&
+  (n.starts == (n.reported.isEmpty && n.initReported.isEmpty))
+
+/-- the attribute `<m>.<prop>` as observed on the started node (`none`: `None`, or not observed) -/
+def ObsNode.attachedOf (n : ObsNode) (m prop : Name) : Option Name :=
+  (n.attached.find? (fun e => e.1 == m && e.2.1 == prop)).bind (·.2.2)
+
+/-- monitor for `AttachedApplied` / `BadAttachment` on an observed node: a good attachment shows on the instance of a
+node which starts (and where nothing is given the attribute is `None`); a bad one keeps the node from starting and its
+module is reported -/
+def attachedB (nameOf : Val → Option Name) (mods : List (ModDecl DT Val)) (n : ObsNode) : Bool :=
+  mods.all fun m => m.attached.all fun d =>
+    match attGiven nameOf m d with
+    | none => !n.starts || n.attachedOf m.name d.prop == none
+    | some t =>
+      if targetOk mods d t then !n.starts || n.attachedOf m.name d.prop == some t
+      else !n.starts && (n.reported.contains m.name || n.initReported.contains m.name)
+
+/-- the attachments the configuration gives, as edges `module → attached module` -/
+def attEdges (nameOf : Val → Option Name) (mods : List (ModDecl DT Val)) : List (Name × Name) :=
+  mods.flatMap fun m => m.attached.filterMap fun d => (attGiven nameOf m d).map fun t => (m.name, t)
+
+/-- one round: a module all of whose attached modules are settled is settled -/
+def settle (edges : List (Name × Name)) (names done : List Name) : List Name :=
+  done ++ names.filter fun x => !done.contains x && edges.all fun e => e.1 != x || done.contains e.2
+
+def settleN (edges : List (Name × Name)) (names : List Name) : Nat → List Name
+  | 0 => []
+  | k + 1 => settle edges names (settleN edges names k)
+
+/-- no module is (transitively) attached to itself -/
+def acyclicB (nameOf : Val → Option Name) (mods : List (ModDecl DT Val)) : Bool :=
+  (mods.map (·.name)).all (settleN (attEdges nameOf mods) (mods.map (·.name)) mods.length).contains
+
+/-- attachments without error do not keep a node from starting: every module created, every given attachment names a
+module of the node of the right kind, no module needs itself ⇒ no module fails to initialise -/
+def attCleanB (nameOf : Val → Option Name) (mods : List (ModDecl DT Val)) (n : ObsNode) : Bool :=
+  !(n.reported.isEmpty &&
+    (mods.all fun m => m.attached.all fun d => match attGiven nameOf m d with
+      | some t => targetOk mods d t
+      | none => true) &&
+    acyclicB nameOf mods) || n.initReported.isEmpty
 
 /-! ## clause 5: merging -/
 
